@@ -18,12 +18,230 @@ RULE = (
     "enumeration of N! orders for N<=4; oracle = np.transpose / reshape(order='F') / np.squeeze on the array the "
     "operand denotes (exact equality for dense and sparse, rigorous rounding bound for Kruskal/Tucker), plus the "
     "inverse round trip.  Non-trivial: >=2 distinct mode sizes and a non-involutive order (permute), a target shape "
-    "that splits or merges modes of different size (reshape), a singleton mode next to a non-singleton one (squeeze)."
+    "that splits or merges modes of different size (reshape), a singleton mode next to a non-singleton one (squeeze).  "
+    "Operands are not only freshly constructed: dense tensors grown by assignment (C-ordered buffer) or held as int64, "
+    "sparse tensors with explicitly stored zeros / int64 values / numpy.int64 shape entries, operands that are "
+    "themselves the result of an earlier permute or reshape ('pre'), Kruskal tensors whose weights were absorbed "
+    "(C-ordered factors), Tucker tensors with a grown core (copy=False) or a sparse core stored in reverse order with "
+    "explicit zeros; orders / shapes / old_modes are passed in every accepted spelling (ndarray of several integer "
+    "dtypes, row matrix, list, tuple, list of numpy integers, scalar for one mode); every operation is called twice "
+    "on the same object (same answer, operand untouched); Kruskal / Tucker data are also scaled by 1e+6 / 1e-6."
 )
 ASSUMPTIONS = [
     "oracle: numpy transpose/reshape/squeeze applied to the array reconstructed from the public attributes",
     "Kruskal/Tucker: compared within 64*n*eps*einsum(|.|) (no values change, but both sides are evaluated in floating point)",
+    "derived operand states are produced through the public API only (assignment growth, the constructors, "
+    "normalize(weight_factor=...), ttensor(..., copy=False), an earlier permute / reshape); when the preparing call "
+    "itself fails the freshly constructed operand is used (the preparing operation is judged in its own cell)",
+    "an explicitly stored zero of a sparse operand may be kept or dropped by the operation; the result must be "
+    "well-formed otherwise and denote the right array",
+    "integer dtypes: int64 for dense data and sparse values (integer-valued cases only); Kruskal / Tucker factors are "
+    "documented as float and stay float64; float32 is left out (no rounding bound adapted to it)",
+    "old_modes of sptensor.reshape is documented as ndarray or int: arrays (int64 / int32), python int and numpy "
+    "integer scalars are used, no lists",
 ]
+
+
+# --------------------------------------------------------------------------
+# operands in derived states (class 1) and integer dtypes (class 2)
+# --------------------------------------------------------------------------
+
+
+@st.composite
+def _dense_operand(draw, tier, **kw):
+    """gen.dense_case (which draws prov ctor/grown) + dtype + 'pre': the operand is the result of an earlier
+    permute / reshape of another tensor (the pre-image is constructed so that the operand denotes shape/data)."""
+    c = draw(gen.dense_case(tier, **kw))
+    if c["vkind"] == "int" and draw(st.integers(0, 2)) == 0:
+        c["dt"] = "int64"
+    _draw_pre(draw, c)
+    return c
+
+
+def _draw_pre(draw, c):
+    pre = draw(st.sampled_from([None, None, None, "permute", "reshape"]))
+    n = len(c["shape"])
+    if pre == "permute" and n >= 2:
+        c["pre"] = dict(op="permute", q=list(draw(st.permutations(range(n)))))
+    elif pre == "reshape" and ref.prod(c["shape"]) >= 2:
+        c["pre"] = dict(op="reshape", shape0=draw(_target_shape(ref.prod(c["shape"]))))
+
+
+def _pre_image(A, pre):
+    """array the earlier operation starts from, so that its result is A"""
+    if pre["op"] == "permute":
+        return np.transpose(A, inv(pre["q"]))
+    return A.reshape(tuple(pre["shape0"]), order="F")
+
+
+def _apply_pre(X0, pre, shape):
+    return X0.permute(np.array(pre["q"])) if pre["op"] == "permute" else X0.reshape(tuple(shape))
+
+
+def build_dense(ctx, case):
+    """(X, A): dense operand and the array it denotes"""
+    A = gen.arr_F(case["shape"], case["data"])
+    pre = case.get("pre")
+    A0 = _pre_image(A, pre) if pre else A
+    c0 = dict(shape=list(A0.shape), data=[float(v) for v in A0.reshape(-1, order="F")], prov=case.get("prov"))
+    if case.get("dt") == "int64":
+        X = ttb.tensor(A0.astype(np.int64).copy(order="F"), tuple(A0.shape))
+    else:
+        X = gen.build_tensor(c0)
+    if gen.is_grown(X):
+        ctx.label("operand:grown")
+    if pre:
+        Y = None
+        try:
+            Y = _apply_pre(X, pre, case["shape"])
+        except Exception:  # noqa: BLE001
+            pass
+        if isinstance(Y, ttb.tensor) and tup(Y.shape) == A.shape and ref.same_exact(ref.den(Y), A):
+            X = Y
+            ctx.label("operand:result-of-" + pre["op"])
+        else:  # the preparing call misbehaved (judged in its own cell): fresh operand
+            X = ttb.tensor(A.copy(order="F"), tuple(case["shape"]))
+    if np.asarray(X.data).dtype.kind in "iu":
+        ctx.label("operand:int64")
+    return X, A
+
+
+@st.composite
+def _sparse_operand(draw, tier, **kw):
+    c = draw(gen.sparse_case(tier, **kw))
+    if c["vkind"] == "int" and draw(st.integers(0, 2)) == 0:
+        c["dt"] = "int64"
+    if draw(st.integers(0, 3)) == 0:
+        A = gen.dense_of_sparse_case(c)
+        zeros = [[int(i) for i in z] for z in np.argwhere(A == 0)]
+        if zeros:
+            k = draw(st.integers(1, min(2, len(zeros))))
+            idx = draw(st.lists(st.integers(0, len(zeros) - 1), min_size=k, max_size=k, unique=True))
+            c["ez"] = [[zeros[i], draw(st.integers(0, len(c["subs"])))] for i in idx]
+    _draw_pre(draw, c)
+    return c
+
+
+def _sp_from(A, entries, dt):
+    """sptensor from (subscript, value) pairs in the given stored order"""
+    if not entries:
+        return ttb.sptensor(shape=tuple(A.shape))
+    subs = np.array([e[0] for e in entries], dtype=int).reshape(len(entries), A.ndim)
+    vals = np.array([e[1] for e in entries], dtype=float).astype(dt).reshape(-1, 1)
+    return ttb.sptensor(subs, vals, tuple(A.shape))
+
+
+def build_sparse(ctx, case):
+    """(X, A, has_explicit_zeros)"""
+    A = gen.dense_of_sparse_case(case)
+    entries = [(list(s), v) for s, v in zip(case["subs"], case["vals"])]
+    for pos, at in case.get("ez") or []:
+        entries.insert(min(at, len(entries)), (list(pos), 0.0))
+    dt = np.int64 if case.get("dt") == "int64" else float
+    pre = case.get("pre")
+    X = _sp_from(A, entries, dt)
+    if pre:
+        # the stored entries of the pre-image, in the same stored order
+        A0 = _pre_image(A, pre)
+        if pre["op"] == "permute":
+            iq = inv(pre["q"])
+            e0 = [([s[iq[i]] for i in range(len(s))], v) for s, v in entries]
+        else:
+            e0 = [(_relin(s, A.shape, A0.shape), v) for s, v in entries]
+        try:
+            Y = _apply_pre(_sp_from(A0, e0, dt), pre, case["shape"])
+            if (isinstance(Y, ttb.sptensor) and tup(Y.shape) == A.shape and not ref.sptensor_problems(Y, True)
+                    and ref.same_exact(ref.den(Y), A)):
+                X = Y
+                ctx.label("operand:result-of-" + pre["op"])
+        except Exception:  # noqa: BLE001
+            pass
+    ez = bool(X.vals.size and (np.asarray(X.vals) == 0).any())
+    if ez:
+        ctx.label("operand:explicit-zeros")
+    if any(isinstance(n, np.integer) for n in X.shape):
+        ctx.label("operand:numpy-int-shape")
+    if X.vals.size and np.asarray(X.vals).dtype.kind in "iu":
+        ctx.label("operand:int64")
+    return X, A, ez
+
+
+def _relin(sub, shape, shape0):
+    i = ref.lin_index(sub, shape)
+    out = []
+    for n in shape0:
+        out.append(i % n)
+        i //= n
+    return out
+
+
+def _snapshot(X):
+    if isinstance(X, ttb.sptensor):
+        return (tup(X.shape), np.array(X.subs, copy=True), np.array(X.vals, copy=True))
+    return (tup(X.shape), np.array(X.data, copy=True))
+
+
+def _untouched(X, snap) -> bool:
+    now = _snapshot(X)
+    return now[0] == snap[0] and all(a.shape == b.shape and np.array_equal(a, b) for a, b in zip(now[1:], snap[1:]))
+
+
+ORDER_FORMS = ["array", "list", "tuple", "npint-list", "row2d", "int32", "uint8"]
+
+
+def order_arg(p, form):
+    """the mode order in one of the spellings parse_one_d documents"""
+    if form == "list":
+        return [int(i) for i in p]
+    if form == "tuple":
+        return tuple(int(i) for i in p)
+    if form == "npint-list":
+        return [np.int64(i) for i in p]
+    if form == "row2d":
+        return np.array([list(p)], dtype=int)
+    if form == "int32":
+        return np.array(p, dtype=np.int32)
+    if form == "uint8":
+        return np.array(p, dtype=np.uint8)
+    if form == "scalar":
+        return int(p[0])
+    if form == "npint-scalar":
+        return np.int64(p[0])
+    return np.array(p, dtype=int)
+
+
+def _order_form(draw, n):
+    forms = ORDER_FORMS + (["scalar", "npint-scalar"] if n == 1 else [])
+    return draw(st.sampled_from(["array", "array"] + forms))
+
+
+SHAPE_FORMS = ["tuple", "list", "array", "npint-tuple", "int32"]
+
+
+def shape_arg(new, form):
+    if form == "list":
+        return [int(i) for i in new]
+    if form == "array":
+        return np.array(new, dtype=int)
+    if form == "int32":
+        return np.array(new, dtype=np.int32)
+    if form == "npint-tuple":
+        return tuple(np.int64(i) for i in new)
+    if form == "scalar":
+        return int(new[0])
+    return tuple(int(i) for i in new)
+
+
+def _shape_form(draw, new):
+    if len(new) == 1 and draw(st.booleans()):
+        return "scalar"
+    return draw(st.sampled_from(["tuple", "tuple"] + SHAPE_FORMS))
+
+
+PREDICATES = {
+    # known finding C07-F2: old_modes of sptensor.reshape given as a single integer
+    "old_modes_scalar": lambda case: case.get("omform") in ("scalar", "npint-scalar"),
+}
 
 
 def tup(shape):
@@ -44,15 +262,17 @@ def inv(p):
 
 @st.composite
 def _perm_dense(draw, tier):
-    c = draw(gen.dense_case(tier, min_order=1))
+    c = draw(_dense_operand(tier, min_order=1))
     c["perm"] = list(draw(st.permutations(range(len(c["shape"])))))
+    c["pform"] = _order_form(draw, len(c["shape"]))
     return c
 
 
 @st.composite
 def _perm_sparse(draw, tier):
-    c = draw(gen.sparse_case(tier, min_order=1))
+    c = draw(_sparse_operand(tier, min_order=1))
     c["perm"] = list(draw(st.permutations(range(len(c["shape"])))))
+    c["pform"] = _order_form(draw, len(c["shape"]))
     return c
 
 
@@ -60,20 +280,23 @@ def _nt_perm(shape, p):
     return len(set(shape)) >= 2 and not gen.is_involution(p)
 
 
-def _check_permute_exact(ctx, X, A, p, kind):
-    ctx.label(*gen.shape_classes(A.shape), "involution" if gen.is_involution(p) else "non-involution")
+def _check_permute_exact(ctx, X, A, p, kind, pform="array", ez=False):
+    ctx.label(*gen.shape_classes(A.shape), "involution" if gen.is_involution(p) else "non-involution",
+              "order-as-" + pform)
     ctx.nt = _nt_perm(A.shape, p)
+    snap = _snapshot(X)
     with ctx.sut(f"{kind}.permute"):
-        R = X.permute(np.array(p))
+        R = X.permute(order_arg(p, pform))
     ctx.require(type(R) is type(X), "permute-returns-same-class", type(R).__name__)
     expect = np.transpose(A, p)
     ctx.check(tup(R.shape) == expect.shape, "permute-shape", f"{tup(R.shape)} vs {expect.shape} p={p}")
     if isinstance(R, ttb.sptensor):
-        probs = ref.sptensor_problems(R)
+        probs = ref.sptensor_problems(R, allow_explicit_zero=ez)
         ctx.check(not probs, "permute-result-wellformed", probs)
         if probs:
             return
     ctx.check(ref.same_exact(ref.den(R), expect), "permute-index-map", ref.diff_info(ref.den(R), expect))
+    ctx.check(_untouched(X, snap), "permute-leaves-operand")
     with ctx.sut(f"{kind}.permute-inverse"):
         B = R.permute(np.array(inv(p)))
     ctx.check(tup(B.shape) == A.shape, "permute-roundtrip-shape")
@@ -81,24 +304,27 @@ def _check_permute_exact(ctx, X, A, p, kind):
     with ctx.sut(f"{kind}.isequal"):
         eq = B.isequal(X)
     ctx.check(eq, "permute-roundtrip-isequal")
-    # order given as a plain list / tuple must mean the same
+    # the same call again on the same object, the order spelled as a plain list (or as an array): the same answer
     with ctx.sut(f"{kind}.permute-list"):
-        R2 = X.permute(list(p))
-    ctx.check(ref.same_exact(ref.den(R2), expect), "permute-list-form")
+        R2 = X.permute(list(p) if pform != "list" else np.array(p))
+    ctx.check(tup(R2.shape) == expect.shape and ref.same_exact(ref.den(R2), expect), "permute-list-form")
+    ctx.check(_untouched(X, snap), "permute-leaves-operand")
+    # the first result is not disturbed by the later calls either
+    ctx.check(ref.same_exact(ref.den(R), expect), "permute-result-stable")
 
 
 @cell("C07/permute/tensor", strategy=_perm_dense, quick=1500, thorough=20000)
 def permute_tensor(ctx, case):
-    X = gen.build_tensor(case)
+    X, A = build_dense(ctx, case)
     ctx.label("prov-grown" if gen.is_grown(X) else "prov-ctor")
-    _check_permute_exact(ctx, X, gen.arr_F(case["shape"], case["data"]), case["perm"], "tensor")
+    _check_permute_exact(ctx, X, A, case["perm"], "tensor", case.get("pform", "array"))
 
 
 @cell("C07/permute/sptensor", strategy=_perm_sparse, quick=1500, thorough=20000)
 def permute_sptensor(ctx, case):
-    X = gen.build_sptensor(case)
+    X, A, ez = build_sparse(ctx, case)
     ctx.label("pattern-" + case["pattern"], "stored-" + case["order"])
-    _check_permute_exact(ctx, X, gen.dense_of_sparse_case(case), case["perm"], "sptensor")
+    _check_permute_exact(ctx, X, A, case["perm"], "sptensor", case.get("pform", "array"), ez)
 
 
 def _enum_perm(tier):
@@ -127,22 +353,50 @@ def permute_enumerated(ctx, case):
     _check_permute_exact(ctx, X, A, p, case["holder"])
 
 
+SCALES = [1.0, 1.0, 1e6, 1e-6]
+
+
 @st.composite
 def _perm_kt(draw, tier):
     c = draw(gen.ktensor_case(tier, min_order=1))
-    c["perm"] = list(draw(st.permutations(range(len(c["shape"])))))
+    n = len(c["shape"])
+    c["perm"] = list(draw(st.permutations(range(n))))
+    c["pform"] = _order_form(draw, n)
+    # derived state: weights absorbed into one factor / spread over all (leaves C-ordered factor matrices)
+    c["absorb"] = draw(st.sampled_from([None, None, "all"] + list(range(n))))
+    c["scale"] = draw(st.sampled_from(SCALES))
     return c
+
+
+def build_kt(ctx, case):
+    K = gen.build_ktensor(case)
+    if case.get("scale", 1.0) != 1.0:
+        K = ttb.ktensor([f.copy() for f in K.factor_matrices], K.weights * case["scale"])
+        ctx.label(f"scale-{case['scale']:g}")
+    ab = case.get("absorb")
+    if ab is not None:
+        try:
+            K2 = K.copy().normalize(weight_factor=ab)
+            if isinstance(K2, ttb.ktensor) and np.all(np.isfinite(ref.den(K2))):
+                K = K2
+        except Exception:  # noqa: BLE001  (normalize is judged by C08)
+            pass
+    if any(not f.flags["F_CONTIGUOUS"] for f in K.factor_matrices):
+        ctx.label("operand:C-ordered-factors")
+    return K
 
 
 @cell("C07/permute/ktensor", strategy=_perm_kt, quick=1000, thorough=12000)
 def permute_ktensor(ctx, case):
-    K = gen.build_ktensor(case)
+    K = build_kt(ctx, case)
     p = case["perm"]
+    pform = case.get("pform", "array")
     A = ref.den(K)
-    ctx.label(*gen.shape_classes(A.shape))
+    ctx.label(*gen.shape_classes(A.shape), "order-as-" + pform)
     ctx.nt = _nt_perm(A.shape, p)
+    w0, f0 = K.weights.copy(), [f.copy() for f in K.factor_matrices]
     with ctx.sut("ktensor.permute"):
-        R = K.permute(np.array(p))
+        R = K.permute(order_arg(p, pform))
     ctx.require(isinstance(R, ttb.ktensor), "permute-returns-ktensor")
     expect = np.transpose(A, p)
     ctx.check(tup(R.shape) == expect.shape, "permute-shape")
@@ -156,25 +410,71 @@ def permute_ktensor(ctx, case):
         B = R.permute(np.array(inv(p)))
     with ctx.sut("ktensor.isequal"):
         ctx.check(B.isequal(K), "permute-roundtrip-isequal")
+    # second call on the same object: same answer, operand untouched
+    with ctx.sut("ktensor.permute-again"):
+        R2 = K.permute(list(p))
+    ok2 = isinstance(R2, ttb.ktensor) and len(R2.factor_matrices) == len(p) and all(
+        np.array_equal(a, b) for a, b in zip(R2.factor_matrices, R.factor_matrices)) and np.array_equal(R2.weights, R.weights)
+    ctx.check(ok2, "permute-second-call-same")
+    ctx.check(np.array_equal(K.weights, w0) and all(np.array_equal(a, b) for a, b in zip(K.factor_matrices, f0)),
+              "permute-leaves-operand")
     # (dense / sparse holders of the same data are compared with the same reference in their own cells)
 
 
 @st.composite
 def _perm_tt(draw, tier):
     c = draw(gen.ttensor_case(tier, min_order=1))
-    c["perm"] = list(draw(st.permutations(range(len(c["shape"])))))
+    n = len(c["shape"])
+    c["perm"] = list(draw(st.permutations(range(n))))
+    c["pform"] = _order_form(draw, n)
+    # derived states of the core: grown by assignment and handed over with copy=False; sparse core stored in reverse
+    # order / with an explicitly stored zero
+    c["core_prov"] = draw(st.sampled_from(["ctor", "ctor", "grown", "reverse", "ez"]))
+    c["scale"] = draw(st.sampled_from(SCALES))
     return c
+
+
+def build_tt(ctx, case):
+    sc = case.get("scale", 1.0)
+    core = gen.arr_F(case["cshape"], case["core"]) * sc
+    if sc != 1.0:
+        ctx.label(f"scale-{sc:g}")
+    fm = [np.array(f, dtype=float).reshape(s, c) for f, s, c in zip(case["factors"], case["shape"], case["cshape"])]
+    prov = case.get("core_prov", "ctor")
+    if case.get("sparse_core"):
+        entries = [(list(s), float(core[s])) for s in ref.all_subs_F(core.shape) if core[s] != 0]
+        if prov in ("reverse", "ez"):
+            entries = entries[::-1]
+        if prov == "ez":
+            zeros = [list(s) for s in ref.all_subs_F(core.shape) if core[s] == 0]
+            if zeros:
+                entries.insert(len(entries) // 2, (zeros[0], 0.0))
+                ctx.label("core:explicit-zero")
+        c = _sp_from(core, entries, float)
+        if prov in ("reverse", "ez") and len(entries) > 1:
+            ctx.label("core:sparse-unsorted")
+        return ttb.ttensor(c, fm)
+    if prov == "grown":
+        c = gen.build_tensor(dict(shape=list(case["cshape"]), data=[float(v) for v in core.reshape(-1, order="F")], prov="grown"))
+        if gen.is_grown(c):
+            T = ttb.ttensor(c, fm, copy=False)
+            if gen.is_grown(T.core):
+                ctx.label("core:grown")
+            return T
+    return ttb.ttensor(ttb.tensor(core.copy(order="F"), tuple(case["cshape"])), fm)
 
 
 @cell("C07/permute/ttensor", strategy=_perm_tt, quick=1000, thorough=12000)
 def permute_ttensor(ctx, case):
-    T = gen.build_ttensor(case)
+    T = build_tt(ctx, case)
     p = case["perm"]
+    pform = case.get("pform", "array")
     A = ref.den(T)
-    ctx.label(*gen.shape_classes(A.shape), "sparse-core" if case["sparse_core"] else "dense-core")
+    ctx.label(*gen.shape_classes(A.shape), "sparse-core" if case["sparse_core"] else "dense-core", "order-as-" + pform)
     ctx.nt = _nt_perm(A.shape, p) or _nt_perm(case["cshape"], p)
+    csnap = _snapshot(T.core)
     with ctx.sut("ttensor.permute"):
-        R = T.permute(np.array(p))
+        R = T.permute(order_arg(p, pform))
     ctx.require(isinstance(R, ttb.ttensor), "permute-returns-ttensor")
     expect = np.transpose(A, p)
     ctx.check(tup(R.shape) == expect.shape, "permute-shape")
@@ -186,6 +486,10 @@ def permute_ttensor(ctx, case):
         B = R.permute(np.array(inv(p)))
     with ctx.sut("ttensor.isequal"):
         ctx.check(B.isequal(T), "permute-roundtrip-isequal")
+    with ctx.sut("ttensor.permute-again"):
+        R2 = T.permute(list(p))
+    ctx.check(isinstance(R2, ttb.ttensor) and ref.same_exact(ref.den(R2), got), "permute-second-call-same")
+    ctx.check(_untouched(T.core, csnap), "permute-leaves-operand")
 
 
 # --------------------------------------------------------------------------
@@ -213,6 +517,8 @@ def factorizations(n: int, max_parts: int = 4):
 @st.composite
 def _target_shape(draw, n, max_parts=4):
     """A target shape with product n: factor n greedily with random divisors, sprinkle singletons."""
+    if draw(st.integers(0, 7)) == 0:
+        return [n]  # flatten to a vector
     parts = []
     rem = n
     while rem > 1 and len(parts) < max_parts - 1:
@@ -229,8 +535,9 @@ def _target_shape(draw, n, max_parts=4):
 
 @st.composite
 def _reshape_dense(draw, tier):
-    c = draw(gen.dense_case(tier, min_order=1))
+    c = draw(_dense_operand(tier, min_order=1))
     c["new"] = draw(_target_shape(ref.prod(c["shape"])))
+    c["sform"] = _shape_form(draw, c["new"])
     return c
 
 
@@ -240,14 +547,15 @@ def _nt_reshape(old, new):
 
 @cell("C07/reshape/tensor", strategy=_reshape_dense, quick=1500, thorough=20000)
 def reshape_tensor(ctx, case):
-    X = gen.build_tensor(case)
+    X, A = build_dense(ctx, case)
     ctx.label("prov-grown" if gen.is_grown(X) else "prov-ctor")
-    A = gen.arr_F(case["shape"], case["data"])
     new = case["new"]
+    sform = case.get("sform", "tuple")
     ctx.nt = _nt_reshape(case["shape"], new)
-    ctx.label(*gen.shape_classes(case["shape"]), f"to-order{len(new)}")
+    ctx.label(*gen.shape_classes(case["shape"]), f"to-order{len(new)}", "shape-as-" + sform)
+    snap = _snapshot(X)
     with ctx.sut("tensor.reshape"):
-        R = X.reshape(tuple(new))
+        R = X.reshape(shape_arg(new, sform))
     ctx.require(isinstance(R, ttb.tensor), "reshape-returns-tensor")
     expect = A.reshape(tuple(new), order="F")
     ctx.check(tup(R.shape) == tuple(new), "reshape-shape", tup(R.shape))
@@ -255,33 +563,43 @@ def reshape_tensor(ctx, case):
     with ctx.sut("tensor.reshape-back"):
         B = R.reshape(tuple(case["shape"]))
     ctx.check(ref.same_exact(ref.den(B), A) and tup(B.shape) == A.shape, "reshape-roundtrip")
-    # the original must still denote A (reshape returns a new object)
-    ctx.check(ref.same_exact(ref.den(X), A), "reshape-leaves-operand")
+    # the original must still denote A (reshape returns a new object), and a second call gives the same answer
+    ctx.check(ref.same_exact(ref.den(X), A) and _untouched(X, snap), "reshape-leaves-operand")
+    with ctx.sut("tensor.reshape-again"):
+        R2 = X.reshape(tuple(new))
+    ctx.check(isinstance(R2, ttb.tensor) and tup(R2.shape) == tuple(new) and ref.same_exact(ref.den(R2), expect),
+              "reshape-second-call-same")
+    ctx.check(ref.same_exact(ref.den(R), expect), "reshape-result-stable")
 
 
 @st.composite
 def _reshape_sparse(draw, tier):
-    c = draw(gen.sparse_case(tier, min_order=1))
+    c = draw(_sparse_operand(tier, min_order=1))
     n = len(c["shape"])
     mode = draw(st.sampled_from(["all", "subset", "subset"]))
     if mode == "all":
         c["old_modes"] = None
         c["new"] = draw(_target_shape(ref.prod(c["shape"])))
+        c["omform"] = None
     else:
         om = draw(gen.mode_subset(n, 1, n))
         c["old_modes"] = om
         c["new"] = draw(_target_shape(ref.prod(c["shape"][m] for m in om), max_parts=3))
+        c["omform"] = draw(st.sampled_from(["array", "array", "int32"] + (["scalar", "npint-scalar"] if len(om) == 1 else [])))
+    c["sform"] = _shape_form(draw, c["new"])
     return c
 
 
 @cell("C07/reshape/sptensor", strategy=_reshape_sparse, quick=1500, thorough=20000)
 def reshape_sptensor(ctx, case):
-    X = gen.build_sptensor(case)
-    A = gen.dense_of_sparse_case(case)
+    X, A, ez = build_sparse(ctx, case)
     new, om = case["new"], case["old_modes"]
+    sform, omform = case.get("sform", "tuple"), case.get("omform") or "array"
     N = len(case["shape"])
     ctx.label("pattern-" + case["pattern"], "stored-" + case["order"], "old_modes-none" if om is None else
-              ("old_modes-sorted" if om == sorted(om) else "old_modes-unsorted"))
+              ("old_modes-sorted" if om == sorted(om) else "old_modes-unsorted"), "shape-as-" + sform)
+    if om is not None:
+        ctx.label("old_modes-as-" + omform)
     if om is None:
         keep = []
         sel = list(range(N))
@@ -290,16 +608,18 @@ def reshape_sptensor(ctx, case):
         keep = [m for m in range(N) if m not in sel]
     sel_shape = [case["shape"][m] for m in sel]
     ctx.nt = _nt_reshape(sel_shape, new) or (om is not None and om != sorted(om))
+    snap = _snapshot(X)
     with ctx.sut("sptensor.reshape"):
-        R = X.reshape(tuple(new)) if om is None else X.reshape(tuple(new), np.array(om))
+        R = X.reshape(shape_arg(new, sform)) if om is None else X.reshape(shape_arg(new, sform), order_arg(om, omform))
     ctx.require(isinstance(R, ttb.sptensor), "reshape-returns-sptensor")
     At = np.transpose(A, keep + sel)
     keep_shape = [case["shape"][m] for m in keep]
     expect = At.reshape(tuple(keep_shape + list(new)), order="F")
     ctx.check(tup(R.shape) == expect.shape, "reshape-shape", f"{tup(R.shape)} vs {expect.shape}")
-    probs = ref.sptensor_problems(R)
+    probs = ref.sptensor_problems(R, allow_explicit_zero=ez)
     ctx.require(not probs, "reshape-result-wellformed", probs)
     ctx.check(ref.same_exact(ref.den(R), expect), "reshape-index-map", ref.diff_info(ref.den(R), expect))
+    ctx.check(_untouched(X, snap), "reshape-leaves-operand")
     if om is None:
         with ctx.sut("sptensor.reshape-back"):
             B = R.reshape(tuple(case["shape"]))
@@ -314,6 +634,13 @@ def reshape_sptensor(ctx, case):
         with ctx.sut("sptensor.reshape-back"):
             B = R.reshape(tuple(sel_shape), np.arange(k, k + len(new)))
         ctx.check(ref.same_exact(ref.den(B), At), "reshape-roundtrip", ref.diff_info(ref.den(B), At))
+    # second call on the same object
+    with ctx.sut("sptensor.reshape-again"):
+        R2 = X.reshape(tuple(new)) if om is None else X.reshape(tuple(new), np.array(om))
+    ctx.check(isinstance(R2, ttb.sptensor) and tup(R2.shape) == expect.shape and ref.same_exact(ref.den(R2), expect),
+              "reshape-second-call-same")
+    ctx.check(_untouched(X, snap), "reshape-leaves-operand")
+    ctx.check(ref.same_exact(ref.den(R), expect), "reshape-result-stable")
 
 
 def _enum_reshape(tier):
@@ -379,24 +706,39 @@ def _squeeze_case(draw, tier):
             base["subs"] = [[0] * len(base["shape"])] if v != 0 else []
             base["vals"] = [v] if v != 0 else []
             base["pattern"] = "all" if v != 0 else "none"
+            if v == 0 and draw(st.booleans()):
+                base["ez"] = [[[0] * len(base["shape"]), 0]]  # the single entry is an explicitly stored zero
         else:
             base["data"] = [v]
+            base["prov"] = "ctor"
+    else:
+        # derived states / dtypes (after the singleton modes are in place)
+        if base["vkind"] == "int" and draw(st.integers(0, 2)) == 0 and all(float(v).is_integer() for v in (
+                base["vals"] if sparse else base["data"])):
+            base["dt"] = "int64"
+        if sparse and draw(st.integers(0, 3)) == 0:
+            A = gen.dense_of_sparse_case(base)
+            zeros = [[int(i) for i in z] for z in np.argwhere(A == 0)]
+            if zeros:
+                i = draw(st.integers(0, len(zeros) - 1))
+                base["ez"] = [[zeros[i], draw(st.integers(0, len(base["subs"])))]]
+        _draw_pre(draw, base)
     return base
 
 
 @cell("C07/squeeze", strategy=_squeeze_case, quick=1500, thorough=20000)
 def squeeze(ctx, case):
     sparse = case["holder"] == "sptensor"
+    ez = False
     if sparse:
-        X = gen.build_sptensor(case)
-        A = gen.dense_of_sparse_case(case)
+        X, A, ez = build_sparse(ctx, case)
     else:
-        X = gen.build_tensor(case)
-        A = gen.arr_F(case["shape"], case["data"])
+        X, A = build_dense(ctx, case)
     shape = case["shape"]
     ones = sum(1 for s in shape if s == 1)
     ctx.label(case["holder"], "all-singleton" if ones == len(shape) else ("some-singleton" if ones else "no-singleton"))
     ctx.nt = 0 < ones < len(shape)
+    snap = _snapshot(X)
     with ctx.sut(f"{case['holder']}.squeeze"):
         R = X.squeeze()
     expect = np.squeeze(A)
@@ -405,10 +747,19 @@ def squeeze(ctx, case):
         ctx.require(isinstance(R, (int, float, np.integer, np.floating)), "squeeze-all-singleton-gives-scalar",
                     type(R).__name__)
         ctx.check(float(R) == float(expect), "squeeze-scalar-value", f"{R} vs {float(expect)}")
+        ctx.check(_untouched(X, snap), "squeeze-leaves-operand")
         return
     ctx.require(type(R) is type(X), "squeeze-returns-same-class", type(R).__name__)
     ctx.check(tup(R.shape) == expect.shape, "squeeze-shape", f"{tup(R.shape)} vs {expect.shape}")
     if sparse:
-        probs = ref.sptensor_problems(R)
+        probs = ref.sptensor_problems(R, allow_explicit_zero=ez)
         ctx.require(not probs, "squeeze-result-wellformed", probs)
     ctx.check(ref.same_exact(ref.den(R), expect), "squeeze-index-map", ref.diff_info(ref.den(R), expect))
+    ctx.check(_untouched(X, snap), "squeeze-leaves-operand")
+    # second call on the same object; squeezing the result again changes nothing
+    with ctx.sut(f"{case['holder']}.squeeze-again"):
+        R2 = X.squeeze()
+        R3 = R.squeeze()
+    for nm, Y in (("squeeze-second-call-same", R2), ("squeeze-idempotent", R3)):
+        ctx.check(type(Y) is type(X) and tup(Y.shape) == expect.shape and ref.same_exact(ref.den(Y), expect), nm)
+    ctx.check(ref.same_exact(ref.den(R), expect), "squeeze-result-stable")
